@@ -1,6 +1,6 @@
 SPECIFICATION MCSpec
 CONSTANTS
-  MCShapes <- ShapeSmall
+  MCShapes <- ShapeTiny
   MCPats <- PatsStar
   MCHooks <- HooksNone
   MCFlags <- FlagsMain
